@@ -153,3 +153,15 @@ class AbstractObj:
     """object known only through its contract: attribute name -> value / python callable(interp, args, kw)"""
     def __init__(self, tag, members): self.tag = tag; self.members = members
     def __repr__(self): return 'AbstractObj(%s)' % self.tag
+
+
+class SymRange:
+    """range(start, stop) with a symbolic bound: a series / mode loop executed once on a generic index"""
+    def __init__(self, start, stop): self.start = start; self.stop = stop
+
+
+class Fam:
+    """array indexed by a mode number: generic element as an expression of the index symbol (plus explicitly stored concrete entries)"""
+    def __init__(self, default):
+        self.default = default; self.elem = None; self.idx = None; self.special = {}
+    def __repr__(self): return 'Fam(%r @ %r)' % (self.elem, self.idx)
